@@ -2,14 +2,17 @@
 
 B1  TLC explores MC_RoadmLaw (RoadmLaw.tla): node policy of each kind written in the library or in the element,
     egress-degree setting absent / pch / psd / psw, add / drop / express, three channel types, inputs below / at /
-    above target mixed per channel, offsets, path loss; clauses SinglePolicy, InvalidRejected, NeverAmplifies(+Step),
+    above target mixed per channel, offsets, path loss per frequency range (per channel); clauses SinglePolicy, InvalidRejected, NeverAmplifies(+Step),
     EqualisedToTarget, BelowTargetLossOnly, TargetIsDegreeElseNode, LevelByKind as invariants.
 B2  every case TLC emits (configuration + per-channel inputs + the spec's expected outputs) is executed on a real Roadm of
     a small designed A-B-C line built from equipment + topology JSON, and compared per channel (+/-3 udB); every
     (library, element) combination of node-level policies is loaded for real and must be accepted with the policy the
     spec says is in force, or rejected with a ConfigurationError.
 B3  every ROADM crossing recorded inside the real gnpy.topology.request.propagate on the shipped networks (and the
-    B2 crossings themselves, re-projected from the element) is judged by Trace_LineElements.
+    B2 crossings themselves, re-projected from the element) is judged by Trace_LineElements; the per-channel offset is
+    the one of the LAUNCHED request keyed by channel frequency (not the array that travels with the spectral
+    information); user spectra with different offsets per partition, partly outside the amplifiers' band (carriers
+    filtered out at launch) or spread over two bands (demultiplexed per band), are among the propagated requests.
 """
 import random
 import traceback
@@ -29,16 +32,17 @@ DKEYS = {'pch': 'per_degree_pch_out_db', 'psd': 'per_degree_psd_out_mWperGHz', '
 OTHER_LOSS = 1.0          # dB added to the path loss of the internal path types that are NOT crossed
 
 
-def cfg_text(offsets, load_only=False, emit=None):
+def cfg_text(offsets, load_only=False, emit=None, maxloss='MCMaxLossVecsQuick'):
     base = (tlc.SPEC / 'MC_RoadmLaw.cfg').read_text()
     base = base.replace('OffsetVecs <- MCOffsetVecsQuick', f'OffsetVecs <- {offsets}')
+    base = base.replace('MaxLossVecs <- MCMaxLossVecsQuick', f'MaxLossVecs <- {maxloss}')
     if load_only:
         base = base.replace('LoadCases <- MCLoadCases', 'LoadCases <- MCLoadCasesAll')
         base = base.replace('DegKinds <- MCDegKinds', 'DegKinds <- MCDegNone')
         base = base.replace('Crossings <- MCCrossings', 'Crossings <- MCCrossOne')
         base = base.replace('Deltas <- MCDeltas', 'Deltas <- MCDeltaOne')
         base = base.replace(f'OffsetVecs <- {offsets}', 'OffsetVecs <- MCOffsetOne')
-        base = base.replace('MaxLosses <- MCMaxLosses', 'MaxLosses <- MCMaxLossOne')
+        base = base.replace(f'MaxLossVecs <- {maxloss}', 'MaxLossVecs <- MCMaxLossOne')
     if emit:
         base = '\n'.join(ln for ln in base.splitlines() if not ln.startswith(('INVARIANT', 'PROPERTY')))
         base += f'\nINVARIANT {emit}\n'
@@ -55,14 +59,19 @@ def policy_value(kind, v_udb):
 base_eqpt = L.base_eqpt
 
 
+# frequency ranges of the impairment profiles: one per channel of the case (193.0 / 193.1 / 193.2 THz)
+RANGES = [(191.3e12, 193.05e12), (193.05e12, 193.15e12), (193.15e12, 196.1e12)]
+
+
 def impairments(maxloss_by_type, minimal=False):
-    """one impairment profile per internal path type; minimal: only roadm-maxloss is given (as in the express-path
-    example of docs/json.rst), otherwise roadm-pmd / roadm-pdl are written too"""
-    rng = {'lower-frequency': 191.3e12, 'upper-frequency': 196.1e12}
+    """one impairment profile per internal path type, with one frequency range per channel of the case
+    (maxloss_by_type: {path type: [loss of range 1, 2, 3]}); minimal: only roadm-maxloss is given (as in the
+    express-path example of docs/json.rst), otherwise roadm-pmd / roadm-pdl are written too"""
     extra = {} if minimal else {'roadm-pmd': 0, 'roadm-pdl': 0}
     return [{'roadm-path-impairments-id': i,
-             f'roadm-{t}-path': [dict({'frequency-range': rng, 'roadm-maxloss': ml}, **extra)]}
-            for i, (t, ml) in enumerate(maxloss_by_type.items())]
+             f'roadm-{t}-path': [dict({'frequency-range': {'lower-frequency': lo, 'upper-frequency': hi},
+                                       'roadm-maxloss': ml}, **extra) for (lo, hi), ml in zip(RANGES, mls)]}
+            for i, (t, mls) in enumerate(maxloss_by_type.items())]
 
 
 line_topology = L.line_topology
@@ -71,17 +80,17 @@ line_topology = L.line_topology
 DEGREES = {'add': ('trx B', 'booster BC'), 'drop': ('preamp AB', 'trx B'), 'express': ('preamp AB', 'booster BC')}
 
 
-def build(lib, elt, node_v, deg=None, crossing='express', maxloss_udb=0, design=True, minimal_profile=False):
+def build(lib, elt, node_v, deg=None, crossing='express', maxloss_udb=(0, 0, 0), design=True, minimal_profile=False):
     """equipment + topology JSON for one configuration -> (designed network, roadm B).  lib / elt: lists of policy
     kinds written in the library entry / in the element; node_v: {kind: value in udB}; deg: the spec's egress-degree
     setting"""
     from gnpy.tools.json_io import load_eqpt_topo_from_json
     from gnpy.tools.worker_utils import designed_network
     eq_json = base_eqpt()
-    ml = maxloss_udb / 1e6
+    ml = [x / 1e6 for x in maxloss_udb]
     entry = {'type_variety': 'verif', 'add_drop_osnr': 38, 'pmd': 0, 'pdl': 0,
              'restrictions': {'preamp_variety_list': [], 'booster_variety_list': []},
-             'roadm-path-impairments': impairments({t: (ml if t == crossing else ml + OTHER_LOSS)
+             'roadm-path-impairments': impairments({t: (ml if t == crossing else [x + OTHER_LOSS for x in ml])
                                                     for t in ('express', 'add', 'drop')}, minimal_profile)}
     for k in lib:
         entry[KEYS[k]] = policy_value(k, node_v[k])
@@ -110,8 +119,8 @@ def spectral_info(ch):
                                                  delta_pdb_per_channel=[c['offset'] / 1e6 for c in ch])
 
 
-def relation(c, maxloss):
-    d = c['in'] - maxloss - (c['tgt'] + c['offset'])
+def relation(c):
+    d = c['in'] - c['maxloss'] - (c['tgt'] + c['offset'])
     return 'above' if d > 0 else 'below' if d < 0 else 'at'
 
 
@@ -123,10 +132,10 @@ class Replay:
         self.benches = {}
         self.traces = {}
         self.worst = 0.0
-        self.counts = {'above': 0, 'below': 0, 'mixed': 0, 'deg_other_kind': 0}
+        self.counts = {'above': 0, 'below': 0, 'mixed': 0, 'deg_other_kind': 0, 'below_in_lower_loss_range': 0}
 
     def bench(self, cs, minimal_profile):
-        key = (tuple(cs['lib']), tuple(cs['elt']), cs['degKind'], cs['crossing'], cs['maxloss'], minimal_profile)
+        key = (tuple(cs['lib']), tuple(cs['elt']), cs['degKind'], cs['crossing'], tuple(cs['maxloss']), minimal_profile)
         if key not in self.benches:
             node_v = {cs['node']['kind']: cs['node']['v']}
             # a library default of another kind (replaced by the element) keeps its own plausible value
@@ -140,9 +149,9 @@ class Replay:
         from harness.record import Recording
         chk = self.chk
         frm, to = DEGREES[cs['crossing']]
-        rels = [relation(c, cs['maxloss']) for c in cs['ch']]
+        rels = [relation(c) for c in cs['ch']]
         cls = f"node={cs['node']['kind']}@{'elt' if cs['elt'] else 'lib'}|deg={cs['degKind']}|{cs['crossing']}" \
-              f"|maxloss={'0' if cs['maxloss'] == 0 else '>0'}|offsets={'0' if not any(c['offset'] for c in cs['ch']) else 'mixed'}"
+              f"|maxloss={'0' if not any(cs['maxloss']) else 'uniform' if len(set(cs['maxloss'])) == 1 else 'per-range'}|offsets={'0' if not any(c['offset'] for c in cs['ch']) else 'mixed'}"
         if minimal_profile:
             cls = 'impairment profile gives roadm-maxloss only|' + cls
         else:
@@ -150,6 +159,8 @@ class Replay:
             self.counts['below'] += 'below' in rels
             self.counts['mixed'] += ('above' in rels and 'below' in rels)
             self.counts['deg_other_kind'] += (cs['degKind'] != 'none' and cs['degKind'] != cs['node']['kind'])
+            self.counts['below_in_lower_loss_range'] += any(r == 'below' and c['maxloss'] < max(cs['maxloss'])
+                                                            for r, c in zip(rels, cs['ch']))
         chk.case(cls + '|' + ','.join(f"{c['in']}:{c['offset']}" for c in cs['ch']), nontrivial=('above' in rels))
         try:
             key, roadm = self.bench(cs, minimal_profile)
@@ -199,7 +210,8 @@ def replay_crossings(cases, chk):
     chk.cov['b2_cases_with_channel_below_target'] = counts['below']
     chk.cov['b2_cases_mixed_above_and_below'] = counts['mixed']
     chk.cov['b2_cases_degree_setting_of_other_kind'] = counts['deg_other_kind']
-    if not (counts['above'] and counts['below'] and counts['mixed'] and counts['deg_other_kind']):
+    chk.cov['b2_cases_unequalised_channel_in_lower_loss_range'] = counts['below_in_lower_loss_range']
+    if not all(counts.values()):
         raise Machinery(f'vacuous generation: {counts}')
     return [{'name': n, 'ev': ev} for n, ev in rp.traces.items()]
 
@@ -239,27 +251,49 @@ def replay_loads(cases, chk):
 
 
 # ----------------------------------------------------------------------------------------------------- B3 traces
+def partitioned_spectrum(rng, bands):
+    """a user spectrum (same document format as the shipped initial_spectrum*.json) made of partitions with DIFFERENT
+    power offsets, some of which lie outside the amplifier band of the path (those carriers are dropped when the
+    propagation starts) - bands: [(f_min, f_max, baud rate, slot width)]"""
+    offs = rng.sample([-2.0, -1.0, 0.5, 1.5, 2.5, 0.0], len(bands))
+    return {'spectrum': [{'f_min': lo, 'f_max': hi, 'baud_rate': br, 'slot_width': sw, 'delta_pdb': o, 'roll_off': 0.15,
+                          'tx_osnr': 40, 'label': f'part{i}'} for i, ((lo, hi, br, sw), o) in enumerate(zip(bands, offs))]}
+
+
 def shipped_roadm_traces(chk, rng):
-    """ROADM crossings inside the real propagate() on the shipped networks (+ PSD / PSW libraries, mixed spectra)"""
+    """ROADM crossings inside the real propagate() on the shipped networks (+ PSD / PSW libraries, mixed spectra, and
+    user spectra with per-partition offsets of which some carriers are filtered out / demultiplexed per band)"""
     jobs = [(n, t, e, None, EX, s) for (n, t, e, _, s) in L.SHIPPED]
     jobs += [('testTopology-psd-mixed', 'testTopology_expected.json', 'eqpt_config_psd.json', 'initial_spectrum2.json', TD, None),
              ('testTopology-psw-mixed', 'testTopology_expected.json', 'eqpt_config_psw.json', 'initial_spectrum1.json', TD, None),
              ('meshV2-pch-mixed', 'meshTopologyExampleV2.json', 'eqpt_config.json', 'initial_spectrum2.json', EX, None)]
+    # per-partition offsets; the first partition lies below / the last one above the amplifiers' band (partial selection)
+    jobs += [('meshV2-offsets-partial', 'meshTopologyExampleV2.json', 'eqpt_config.json',
+              partitioned_spectrum(rng, [(190.80e12, 191.00e12, 32e9, 50e9), (192.00e12, 192.20e12, 32e9, 50e9),
+                                         (193.00e12, 193.30e12, 64e9, 75e9), (194.00e12, 194.15e12, 32e9, 50e9),
+                                         (196.30e12, 196.45e12, 32e9, 50e9)]), EX, None),
+             ('multiband-offsets', 'multiband_example_network.json', 'eqpt_config_multiband.json',
+              partitioned_spectrum(rng, [(186.50e12, 186.80e12, 32e9, 50e9), (188.00e12, 188.30e12, 64e9, 75e9),
+                                         (192.00e12, 192.30e12, 32e9, 50e9), (194.00e12, 194.30e12, 64e9, 75e9)]), EX, None)]
     npaths = 6 if chk.tier == 'quick' else 40
     traces = []
     crossings = 0
+    mixed_offsets = 0
     kinds = set()
     for name, topo, eqpt, spectrum, edir, sim in jobs:
         L.set_sim(sim)
         try:
             eq, net, req, _ = L.load_designed(topo, eqpt, spectrum=spectrum, eqpt_dir=edir)
+            offset_of = L.launched_offsets(req)
             few = 2 if (name == 'coronet' and chk.tier == 'quick') else npaths
             for pname, evs in L.record_paths(eq, req, L.some_paths(net, rng, few)):
                 out = []
                 for ev in evs:
                     if ev['cls'] != 'Roadm':
                         continue
-                    e = L.roadm_event(ev, max_ch=12 if chk.tier == 'quick' else 24)
+                    e = L.roadm_event(ev, max_ch=12 if chk.tier == 'quick' else 24, offset_of=offset_of)
+                    if e is not None and len({c['offset'] for c in e['ch']}) > 1:
+                        mixed_offsets += 1
                     if e is None:
                         chk.cov['b3_crossings_left_unjudged'] = chk.cov.get('b3_crossings_left_unjudged', 0) + 1
                         continue
@@ -272,6 +306,7 @@ def shipped_roadm_traces(chk, rng):
     chk.cov['b3_networks'] = len(jobs)
     chk.cov['b3_roadm_crossings'] = crossings
     chk.cov['b3_policies_seen'] = sorted(kinds)
+    chk.cov['b3_crossings_with_non_uniform_offsets'] = mixed_offsets
     return traces
 
 
@@ -289,18 +324,19 @@ def report_trace_verdicts(chk, traces, verdicts, origin):
 
 def run(chk):
     offsets = 'MCOffsetVecsQuick' if chk.tier == 'quick' else 'MCOffsetVecsFull'
+    maxloss = 'MCMaxLossVecsQuick' if chk.tier == 'quick' else 'MCMaxLossVecs'
     # ---- B1
-    r = tlc.run('MC_RoadmLaw', cfg_text=cfg_text(offsets), timeout=1800, tag='c06-mc')
-    chk.add_mc(f'MC_RoadmLaw OffsetVecs={offsets}', r)
+    r = tlc.run('MC_RoadmLaw', cfg_text=cfg_text(offsets, maxloss=maxloss), timeout=1800, tag='c06-mc')
+    chk.add_mc(f'MC_RoadmLaw OffsetVecs={offsets} MaxLossVecs={maxloss}', r)
     chk.exhaustive = True
     if chk.tier == 'thorough':
         head = '\n'.join(ln for ln in cfg_text('MCOffsetVecsQuick').splitlines() if not ln.startswith(('INVARIANT', 'PROPERTY')))
         L.require_witnesses(chk, 'MC_RoadmLaw', head, ['ProbeEqualised', 'ProbeBelow', 'ProbeMixed', 'ProbeRejected',
-                                                        'ProbeDegOtherKind'], 'c06-probe')
+                                                        'ProbeDegOtherKind', 'ProbeLowerLossRange'], 'c06-probe')
     # ---- B2 generation: crossings and configuration loading
-    r2 = tlc.run('MC_RoadmLaw', cfg_text=cfg_text(offsets, emit='EmitCross'), timeout=1800, tag='c06-emit')
+    r2 = tlc.run('MC_RoadmLaw', cfg_text=cfg_text(offsets, emit='EmitCross', maxloss=maxloss), timeout=1800, tag='c06-emit')
     chk.add_mc('emit crossings', r2)
-    r3 = tlc.run('MC_RoadmLaw', cfg_text=cfg_text(offsets, load_only=True, emit='EmitLoad'), timeout=600, tag='c06-load')
+    r3 = tlc.run('MC_RoadmLaw', cfg_text=cfg_text(offsets, load_only=True, emit='EmitLoad', maxloss=maxloss), timeout=600, tag='c06-load')
     chk.add_mc('emit configuration loads', r3)
     if not r2.emitted or not r3.emitted:
         raise Machinery('no case emitted')
@@ -316,7 +352,8 @@ def run(chk):
     if traces and traces[0]['ev']:
         chk.sample(dict(kind='B3 ROADM crossing recorded in propagate() and judged by Trace_LineElements',
                         trace=traces[0]['name'], event={k: (v if k != 'ch' else v[:2]) for k, v in traces[0]['ev'][0].items()}))
-    chk.assume('per-channel offsets are the spectral information\'s delta_pdb_per_channel; path loss is the roadm-maxloss '
+    chk.assume('per-channel offsets: for crossings inside propagate() the offset of the LAUNCHED request keyed by channel frequency '
+               '(user spectrum delta_pdb / request offset), for direct calls the harness-built spectral information; path loss is the roadm-maxloss '
                'configured for the crossed internal path (0 when none)')
     chk.assume('an egress degree that carries settings of two kinds at once is left unjudged (the property does not rank them)')
     chk.assume('B2 inputs: 3 channels (32G/50GHz, 64G/75GHz, 90G/100GHz) on a designed A-B-C line; policy values are the '
@@ -379,6 +416,20 @@ def _mut_two_policies_accepted():
     J.merge_equalization = merge
 
 
+def _mut_maxloss_scalar():
+    """one path loss for the whole spectrum (the first range's) instead of the loss of each channel's range"""
+    import gnpy.core.elements as E
+    orig = E.Roadm.get_impairment
+
+    def get_impairment(self, impairment, frequency_array, from_degree, degree):
+        res = orig(self, impairment, frequency_array, from_degree, degree)
+        if impairment == 'roadm-maxloss' and res is not None:
+            return np.full(len(res), res[0])
+        return res
+    E.Roadm.get_impairment = get_impairment
+
+
 MUTANTS = {'node_despite_degree': _mut_node_despite_degree, 'psd_by_slot_width': _mut_psd_by_slot_width,
            'offset_ignored': _mut_offset_ignored, 'boost_below_target': _mut_boost_below_target,
-           'maxloss_after_compare': _mut_maxloss_after_compare, 'two_policies_accepted': _mut_two_policies_accepted}
+           'maxloss_after_compare': _mut_maxloss_after_compare, 'two_policies_accepted': _mut_two_policies_accepted,
+           'maxloss_scalar': _mut_maxloss_scalar}
